@@ -125,7 +125,7 @@ def cases(ctx):
     rng = ctx.rng
     jobs = []
     meta = []
-    nmsg = ctx.n(8, 14)
+    nmsg = ctx.n(8, 12)
     made = 0
     tries = 0
     clamp = []
@@ -217,7 +217,7 @@ def cases(ctx):
                 am = residue_message(n, k, tsig0[1], with_option=bool(n & 1))
                 prefer = rng.choice([0, 1])
                 yield "padres", [10, am, None, 65535, 0, prefer, pad]
-                if rng.random() < (0.25 if pad == 16 else 0.08 if ctx.quick else 0.3):
+                if rng.random() < (0.25 if pad == 16 else 0.08 if ctx.quick else 0.15):
                     yield "padres-model", [1, am, None, 65535, 0, prefer, pad]
     # the implementation at EVERY limit (in parallel); the model at both ends of every run of equal
     # outputs, at random limits, and at every limit of sampled chunks
